@@ -270,6 +270,12 @@ class Lib:
         vals = [to_z3(as_int(ex.eval(a, st))) for a in node.args[1:]]
         return self.ctx.uf(name, *([I] * len(vals) + [I]))(*vals)
 
+    def sf_is_integer(self, ex, node, st):
+        v = as_real(ex.eval(node.args[0], st))
+        if is_z3(v):
+            return z3.IsInt(v)
+        return Fraction(v).denominator == 1
+
     def sf_close(self, ex, node, st):
         """Equality of reals (SMT reading); equality up to rounding in the native reading."""
         return values_equal(as_real(ex.eval(node.args[0], st)), as_real(ex.eval(node.args[1], st)))
@@ -326,6 +332,13 @@ class Lib:
         name = ex.eval(node.args[0], st)
         d = st.ghost.get("__db_old__") or ex.entry.ghost.get("__db__")
         return d.get("tables")[name]
+
+    def sf_loop_it(self, ex, node, st):
+        k = ex.eval(node.args[0], st)
+        v = st.locals.get("__it%d__" % k)
+        if v is None:
+            raise EngineError("loop_it(%d) used outside that loop" % k)
+        return v
 
     def sf_cut(self, ex, node, st):
         """Ghost assertion: proved here (obligation), then available as a hypothesis."""
@@ -819,6 +832,16 @@ class Lib:
 
     def seq_index(self, ex, st, s, bm, args, kwargs, node):
         x = args[0]
+        bvs = list(ex.bound_stack)
+        if bvs:
+            # under bound variables: the position is a function of them; the element is assumed present
+            # (list.index raising ValueError under a comprehension is reported through the probe evaluation)
+            wf = z3.Function(uid("idx"), *([v.sort() for v in bvs] + [I]))
+            w = wf(*bvs)
+            mem = ex.contains(s, x, st, node)
+            st.pc.append(z3.ForAll(bvs, z3.Implies(to_z3(zand(*st.temps, mem)),
+                                                   z3.And(w >= 0, to_z3(ex.cmp_lt(w, s.n)), to_z3(values_equal(s.at(w), x))))))
+            return w
         w = z3.Int(uid("idx"))
         mem = ex.contains(s, x, st, node)
         st.pending.append((list(st.pc), znot(mem), "ValueError"))
@@ -1291,6 +1314,13 @@ class Lib:
         out, _, _ = ex.seq_filter(rng, lambda i: ex.truth(a.at(i)), st)
         return (out,)
 
+    def b_np_argwhere(self, ex, st, args, kwargs, node):
+        trusted("numpy.argwhere (1-D): the ascending indices of the true elements, as an (n, 1) array")
+        a = ex.as_seq(args[0], st)
+        rng = Seq(a.n, lambda i: i, "array")
+        out, _, _ = ex.seq_filter(rng, lambda i: ex.truth(a.at(i)), st)
+        return Opaque("argwhere", idx=out)
+
     def b_np_all(self, ex, st, args, kwargs, node):
         return self.all_of(ex, st, ex.as_seq(args[0], st))
 
@@ -1382,14 +1412,18 @@ class Lib:
         return Seq(n, lambda i: a + as_real(i) * (b - a) / (n - 1), "array")
 
     def b_np_allclose(self, ex, st, args, kwargs, node):
-        trusted("numpy.allclose(a, b): |a - b| <= 1e-8 + 1e-5 |b| element-wise (equal values are close)")
+        trusted("numpy.allclose(a, b, rtol, atol): |a - b| <= atol + rtol |b| element-wise (defaults 1e-8, 1e-5)")
         a, b = args[0], args[1]
+        rtol = as_real(kwargs.get("rtol", Fraction(1, 10**5)))
+        atol = as_real(kwargs.get("atol", Fraction(1, 10**8)))
+        if is_z3(rtol) or is_z3(atol):
+            raise EngineError("allclose with symbolic tolerances outside the subset")
         def close(x, y):
             x, y = as_real(x), as_real(y)
             d = ex.scalar_binop(ast.Sub(), x, y, st, node)
             ad = self.b_abs(ex, st, [d], {}, node)
             ay = self.b_abs(ex, st, [y], {}, node)
-            return ex.cmp_le(ad, Fraction(1, 10**8) + Fraction(1, 10**5) * ay)
+            return ex.cmp_le(ad, Fraction(atol) + Fraction(rtol) * ay if Fraction(rtol) != 0 else Fraction(atol))
         if isinstance(a, Seq) or isinstance(b, Seq):
             a2 = a if isinstance(a, Seq) else None
             b2 = b if isinstance(b, Seq) else None
